@@ -46,7 +46,7 @@ _AMB_NULL = None
 class ambient:
     """with H.ambient(seed, res): ...   (never around scheduler explorations: trace logging changes the line-level points)"""
 
-    ALL = ("trace", "multithread", "tls", "dispatcher", "high_fd", "warn_error")
+    ALL = ("trace", "multithread", "tls", "dispatcher", "high_fd", "warn_error", "thread_hop", "truthy")
 
     def __init__(self, seed, res=None, dims=ALL):
         import random
@@ -93,6 +93,10 @@ def _draw_ambient():
         "high_fd": ("high_fd" in AMB.dims and r.random() < 0.15),
         # the application runs with warnings turned into errors (python -W error, a test runner's filterwarnings=error)
         "warn_error": ("warn_error" in AMB.dims and r.random() < 0.2),
+        # every API call of the connection is made by another (fresh) thread, one after the other (a thread pool / run_in_executor)
+        "thread_hop": ("thread_hop" in AMB.dims and r.random() < 0.12),
+        # boolean options spelled 1 / 0 instead of True / False
+        "truthy": ("truthy" in AMB.dims and r.random() < 0.2),
     }
     AMB.last = a
     for k, v in a.items():
@@ -118,6 +122,10 @@ def _apply_ambient(W, ws_kwargs, manage_trace=True):
         W.enableTrace(bool(a["trace"]), handler=_AMB_NULL)
     if a["multithread"] is not None:
         kw.setdefault("enable_multithread", a["multithread"])
+    if a["truthy"]:
+        for k in ("enable_multithread", "fire_cont_frame", "skip_utf8_validation"):
+            if isinstance(kw.get(k), bool):
+                kw[k] = int(kw[k])
     if a["dispatcher"] and "dispatcher" not in kw:
         kw["dispatcher"] = W._dispatcher.DispatcherBase(type("App", (), {"keep_running": True})(), 5)
     net.SimSocket.fd_base = 1100 if a["high_fd"] else 10
@@ -128,6 +136,27 @@ def _apply_ambient(W, ws_kwargs, manage_trace=True):
         if a["warn_error"]:
             warnings.simplefilter("error")
     return kw, bool(a["tls"])
+
+
+def on_another_thread(fn):
+    """Run fn() on a fresh thread (an actor of the running simulation) and wait for it; its result or exception is the caller's."""
+    S = sched.CURRENT
+    if S is None:
+        return fn()
+    box = {}
+
+    def body():
+        try:
+            box["r"] = fn()
+        except BaseException as e:  # noqa
+            if isinstance(e, sched.SimAbort):
+                raise
+            box["e"] = e
+    a = S.spawn(body, name="hop")
+    S.block(lambda: a.state == sched.DONE, None, why="join hop")
+    if "e" in box:
+        raise box["e"]
+    return box.get("r")
 
 
 def accept_for(key: str) -> str:
@@ -406,23 +435,27 @@ def run_recv_script(stream, script, segs=None, ending="eof", ws_kwargs=None, tim
     timeouts = 0
     wouldblocks = 0
     post_timeout_bad = []
+    hop = bool(AMB.on and AMB.last and AMB.last.get("thread_hop"))
+
+    def call(name, cf):
+        if name == "recv":
+            return w.recv()
+        if name == "next":
+            return next(w)
+        if name == "iter":
+            return next(iter(w))
+        if name == "recv_data":
+            return w.recv_data(cf)
+        if name == "recv_data_frame":
+            return w.recv_data_frame(cf)
+        return w.recv_frame()
+
     for name, cf in script:
         before_w = len(peer.client_stream)
         tries = 0
         while True:
             try:
-                if name == "recv":
-                    v = w.recv()
-                elif name == "next":
-                    v = next(w)
-                elif name == "iter":
-                    v = next(iter(w))
-                elif name == "recv_data":
-                    v = w.recv_data(cf)
-                elif name == "recv_data_frame":
-                    v = w.recv_data_frame(cf)
-                else:
-                    v = w.recv_frame()
+                v = on_another_thread(lambda: call(name, cf)) if hop else call(name, cf)
                 out = ("ret", shape_value(name, v))
             except BaseException as e:  # noqa
                 if isinstance(e, (sched.SimAbort, KeyboardInterrupt)):
